@@ -311,3 +311,34 @@ fn make_digits(a: &impl BigInteger, w: usize, num_bits: usize) -> impl Iterator<
         digit
     })
 }
+
+/// Verification hooks: public wrappers around the private MSM internals, so
+/// that the plain-bucket variant (unreachable from any shipped group, which all
+/// set `NEGATION_IS_CHEAP`) and the signed-digit recoding can be driven from
+/// outside the crate. Compiled only with the `verif-hooks` feature.
+#[cfg(feature = "verif-hooks")]
+#[doc(hidden)]
+pub mod verif_hooks {
+    use super::*;
+
+    /// The plain-bucket multi-scalar multiplication (`NEGATION_IS_CHEAP == false` path).
+    pub fn msm_bigint_plain<V: VariableBaseMSM>(
+        bases: &[V::MulBase],
+        bigints: &[<V::ScalarField as PrimeField>::BigInt],
+    ) -> V {
+        super::msm_bigint(bases, bigints)
+    }
+
+    /// The signed-digit multi-scalar multiplication (`NEGATION_IS_CHEAP == true` path).
+    pub fn msm_bigint_signed<V: VariableBaseMSM>(
+        bases: &[V::MulBase],
+        bigints: &[<V::ScalarField as PrimeField>::BigInt],
+    ) -> V {
+        super::msm_bigint_wnaf(bases, bigints)
+    }
+
+    /// The signed-digit recoding of `a` with window `w`.
+    pub fn make_digits(a: &impl BigInteger, w: usize, num_bits: usize) -> Vec<i64> {
+        super::make_digits(a, w, num_bits).collect()
+    }
+}
